@@ -321,6 +321,8 @@ class Gen:
             mods = per_block.setdefault(b["id"], [])
             if any(m[3] == "proxy" for m in mods):
                 continue
+            if mods and getattr(self, "one_per_block", False):
+                continue
             pos = rng.choice(["start", "mid", "mid", "before_term", "end"])
             if pos == "start":
                 i = 0
